@@ -73,6 +73,7 @@ def run_s2c(prop, tier, seed, opts):
         samples = []
         stage_info = []
         all_failing = []
+        trace_rejects = []
         for st in spec["stages"]:
             if tier not in st["cfg"]:
                 continue
@@ -99,8 +100,34 @@ def run_s2c(prop, tier, seed, opts):
                 raise V.Broken("stage %s emitted no cases" % st["name"])
             total_states += res["states"]
             total_distinct += res["distinct"]
+            obs_path = scratch.path("obs-%s.ndjson" % st["name"]) if st.get("trace") else None
             results = V.replay(harness, res["cases"], scratch.path("res-%s.ndjson" % st["name"]),
-                               limit=st.get("limit", "5s"))
+                               limit=st.get("limit", "5s"), obs_path=obs_path)
+            trace_info = None
+            if st.get("trace"):
+                # code -> spec: TLC validates what the implementation produced
+                consumed, rejected, tres = V.validate_trace(scratch, st["trace"]["module"], st["trace"]["cfg"], obs_path,
+                                                            sub="trace-" + st["name"], timeout=st["trace"].get("timeout", 900))
+                with open(obs_path) as f:
+                    obs_lines = f.readlines()
+                if consumed != len(obs_lines):
+                    raise V.Broken("trace spec consumed %d of %d observation lines" % (consumed, len(obs_lines)))
+                trace_info = dict(lines=len(obs_lines), rejected=len(rejected))
+                total_states += tres["states"]
+                total_distinct += tres["distinct"]
+                trace_rejects.extend((st, json.loads(obs_lines[i - 1])) for i in rejected[:50])
+                if opts.get("selftest") or tier == "thorough":
+                    # binding self-test of the trace spec: corrupt one recorded field, expect a rejection
+                    mut = scratch.path("obs-mut.ndjson")
+                    with open(mut, "w") as f:
+                        for i, l in enumerate(obs_lines[:200]):
+                            o = json.loads(l)
+                            if i == 7:
+                                o["out"] = (o.get("out") or []) + [60]
+                            f.write(json.dumps(o) + "\n")
+                    c2, r2, _ = V.validate_trace(scratch, st["trace"]["module"], st["trace"]["cfg"], mut, sub="trace-self")
+                    if 8 not in r2:
+                        raise V.Broken("binding self-test: corrupted observation line was accepted by %s" % st["trace"]["module"])
             with open(res["cases"]) as f:
                 case_lines = {}
                 for l in f:
@@ -118,6 +145,8 @@ def run_s2c(prop, tier, seed, opts):
             stage_info.append(dict(stage=st["name"], module=st["module"], cfg=st["cfg"][tier], states=res["states"],
                                    distinct=res["distinct"], cases=len(results), failing=len(failing),
                                    tlc_wall_s=round(res["wall"], 1)))
+            if trace_info:
+                stage_info[-1]["trace"] = trace_info
             for r in failing:
                 all_failing.append((r, case_lines.get(r.get("key"))))
             # binding self-test on a sample of this stage
@@ -161,6 +190,14 @@ def run_s2c(prop, tier, seed, opts):
             f0 = r2["fails"][0]
             violations.append("VIOLATION property=%s replay=%s" % (prop, path))
             V.log("  violating case: %s | %s | %s got=%r want=%r" % (f0.get("run"), f0.get("src"), f0.get("why"), f0.get("got"), f0.get("want")))
+        for (st, o) in trace_rejects[:10]:
+            os.makedirs(V.REPLAYS, exist_ok=True)
+            import hashlib
+            path = os.path.join(V.REPLAYS, "%s-trace-%s.json" % (prop, hashlib.sha1(json.dumps(o, sort_keys=True).encode()).hexdigest()[:12]))
+            with open(path, "w") as f:
+                json.dump({"property": prop, "rejected_observation": o, "trace_spec": st["trace"]["module"]}, f)
+            violations.append("VIOLATION property=%s replay=%s" % (prop, path))
+            V.log("  rejected observation: %s" % json.dumps(o)[:300])
         for k in active:
             n = hit.get(k.get("what"), 0)
             known_lines.append("KNOWN-FINDING: property=%s %s (explains %d failing cases of this run)" % (prop, k.get("what"), n))
